@@ -6,7 +6,7 @@
 (* as an unreduced negation (Y - p): Denote(JAdd) = GAdd, Denote(JDbl) = 2P, JEq = equality of   *)
 (* denoted points, JScale canonical, NAF digits reproduce k, NAF multiplication = k-fold sum.    *)
 EXTENDS Jacobi, TLC
-CONSTANTS Primes, MaxK
+CONSTANTS Primes, MaxK, MaxAB
 VARIABLES stage, c, p1, p2
 vars == <<stage, c, p1, p2>>
 Init == stage = 0 /\ c = [p |-> 0, a |-> 0, b |-> 0] /\ p1 = GInf /\ p2 = GInf
@@ -50,8 +50,15 @@ MulNafRefines == S /\ OddOrder =>
   \A k \in 0..MaxK :
         LET r == JMulNaf(c, Rep(p1, 2 % c.p), k)
         IN  (IF JIsInf(c, r) THEN GInf ELSE Denote(c, r)) = GMulDA(c, k, p1)
-(* the order of p1 (bounded search), and the table path for every k in [0, 2 * order + 2] and some negative / large k *)
 OrderOfP1 == CHOOSE k \in 1..(2 * c.p + 2) : GMulDA(c, k, p1) = GInf /\ \A j \in 1..(k - 1) : GMulDA(c, j, p1) # GInf
+(* mul_add: a * p1 + b * p2 for all a, b in 0..MaxAB, every pair of odd-order points (so P = Q, P = -Q and unrelated *)
+(* points all occur), with and without a declared order                                                           *)
+OddOrder2 == \A j \in 1..(2 * c.p + 2) : NoY0(GMulDA(c, j, p2))
+MulAddRefines == S /\ OddOrder /\ OddOrder2 /\ (\A j, l \in 0..MaxAB : NoY0(GAdd(c, GMulDA(c, j, p1), GMulDA(c, l, p2)))) =>
+  \A a, b \in 0..MaxAB : \A ord \in {0, OrderOfP1 * (IF GMulDA(c, OrderOfP1, p2) = GInf THEN 1 ELSE 0)} :
+     LET r == JMulAdd(c, Rep(p1, 2 % c.p), a, Rep(p2, 3 % c.p), b, ord)
+     IN  (IF JIsInf(c, r) THEN GInf ELSE Denote(c, r)) = GAdd(c, GMulDA(c, a, p1), GMulDA(c, b, p2))
+(* the order of p1 (bounded search), and the table path for every k in [0, 2 * order + 2] and some negative / large k *)
 MulTableRefines == S /\ OddOrder =>
   LET n == OrderOfP1 IN
   \A k \in (0..(2 * n + 2)) \cup {3 * n + 1, 4 * n - 1, 5 * n} :
